@@ -63,6 +63,24 @@ def payload_then_signature(tr, outcome, raised, env, ex, s):
     return ok
 
 
+def signs_key_and_payload(tr, outcome, raised, env, ex, s):
+    """hmac.new is called exactly once, keyed with `hmac_key`, on the message  encode(cache_key) + raw_bytes  (the terms of the
+    opaque byte operations: the message is a function of BOTH the key and the payload, in this order)."""
+    import z3
+    from pyvc import smt
+    news = [e for e in tr if e[0] == "call" and str(e[1]).endswith("hmac.new")]
+    if len(news) != 1:
+        return False
+    a = news[0][2].get("args", [])
+    if len(a) < 2:
+        return False
+    def t(v):
+        return getattr(v, "t", None)
+    from pyvc.engine import to_v
+    expected = ex.eval_pure("cache_key.encode() + raw_bytes", s)
+    return z3.And(t(a[0]) == t(env["hmac_key"]), to_v(a[1], s) == expected)
+
+
 CONTRACTS = {
     C + "DiskCache.get": dict(
         props=["C09"],
@@ -85,6 +103,16 @@ CONTRACTS = {
                  "forall_keys(lambda k: (k in self._data) == old(k in self._data) and (k not in self._data or self._data[k] is old(self._data.get(k))), self._data)"],
         modifies=["self._data"],
         mustfail="result[0] == (key not in self._data)",
+    ),
+    C + "_compute_hmac_bytes": dict(
+        props=["C09"],
+        params={"hmac_key": ANY, "cache_key": STR, "raw_bytes": ANY},
+        returns=STR,
+        raises={},
+        call_site="opaque",
+        modifies=[],
+        trace=[{"name": "C09 the signature is computed, with the directory's secret, over the entry's KEY and its payload bytes (a signed payload cannot be served under another key)",
+                "check": lambda tr, outcome, raised, env, ex, s: __import__("contracts.c_cache", fromlist=["x"]).signs_key_and_payload(tr, outcome, raised, env, ex, s)}],
     ),
     C + "InMemoryCache.set": dict(
         props=["C09"],
